@@ -14,21 +14,11 @@ def modulus(upto, need=16):
         if p <= upto and m * p * (need + 1) < 2**62: m *= p
     return m
 
-def get_shortcut_checks_key():
-    """what the translator found at the top of Table_Get (CelloGen/Table.lean is regenerated before the cases are generated): True once
-    the repair of KF-C02-get-alias is in the source — `getv` is then generated everywhere, not only outside the finding's territory"""
-    try:
-        txt = open(os.path.join(core.ROOT, 'lean', 'CelloGen', 'Table.lean')).read()
-        return re.search(r'def getShortcutChecksKey : Bool := (true|false)', txt).group(1) == 'true'
-    except Exception:
-        return False
-
 class Gen:
     """op-file writer with a shadow of what is bound where (only to choose present/absent keys; the oracle is in the harness)"""
     def __init__(self, rng):
         self.rng = rng; self.lines = []; self.bound = [dict() for _ in range(NT)]; self.kind = ['I'] * NT
         self.nextval = 1
-        self.alias_open = get_shortcut_checks_key()
     def emit(self, s): self.lines.append(s)
     def val(self):
         self.nextval += 1
@@ -62,17 +52,18 @@ class Gen:
         self.emit(' '.join([f'assignm {t} {kind}'] + toks))
         self.bound[t] = {k: 1 for k in ks}; self.kind[t] = kind
     def alias(self, t, pool):
-        """a `get` whose key argument lives in the table's own storage, outside KF-C02-get-alias: the stored key object (present or
-        absent key), the value object of an absent key (KeyError before any value exists), and for Int -> Int tables the value
-        object of a key whose value is bound to itself"""
+        """a `get` whose key argument lives in the table's own storage: the value object of any record (since fix bc940bb it is read
+        like any other object: ValueError when it is not of the key type, else looked up), the stored key object (present or absent
+        key), the value object of an absent key (KeyError before any value exists), and for Int -> Int tables the value object of
+        a key whose value is bound to itself or to another bound key"""
         rng = self.rng; b = self.bound[t]; r = rng.random()
         absent = [k for k in rng.sample(pool, min(len(pool), 6)) if k not in b]
-        if self.alias_open and r < 0.5:
+        if r < 0.35:
             self.emit(f'getv {t} {self.some_present(t) if (b and rng.random() < 0.8) else rng.choice(pool)}')
-        elif r < 0.45:
+        elif r < 0.55:
             k = self.some_present(t) if (b and rng.random() < 0.8) else rng.choice(pool)
             self.emit(f'getk {t} {k}')
-        elif r < 0.65 and absent: self.emit(f'getv {t} {absent[0]}')
+        elif r < 0.70 and absent: self.emit(f'getv {t} {absent[0]}')
         elif self.kind[t] == 'I':
             k = rng.choice(pool)
             if abs(int(k)) >= 2**62: return
@@ -153,7 +144,8 @@ def wide_int_pool(rng, size, classes):
     for i in range(size):
         c = classes[i % len(classes)]
         j = (i // len(classes)) % maxmul
-        pool.append(str(c + m * j if i % 4 != 3 else c + LCM * (2**31 + j)))
+        if i % 8 == 7: pool.append(str(c - LCM * 2**31 * (2 * (j % 100) + 1)))       # exactly -2^31 in the low word of the difference to c
+        else: pool.append(str(c + m * j if i % 4 != 3 else c + LCM * (2**31 + j)))
         if rng.random() < 0.15: pool.append(str(-(c + m * j) - 1))
     return pool
 
@@ -200,9 +192,158 @@ def string_pool(rng, hexe):
     extra2 = [f'{nme}:{h}' for nme, h in allk if h % 101 == h0 % 101][:40]
     return pool + extra + extra2
 
+# ---------------------------------------------------------------------------------------------- near keys
+# Keys that a WEAKENED key comparison would merge (a prefix compare, a compare of all but the last byte, a case fold, a 7-bit compare,
+# a compare narrower than the value), placed on ONE probe path: a table merges two keys only when the second meets the first while
+# probing, i.e. when their hashes agree modulo the current slot count.  Unrelated names with searched collisions never are in such a
+# relation, and near keys with unrelated hashes never meet; so the pairs are searched: hashes are asked from the library under test.
+SLOT_RANGE = {5: (0, 4), 11: (5, 9), 23: (10, 20), 53: (21, 47), 101: (48, 90)}     # nitems for which Table_Ideal_Size is this prime
+NEAR_RELATIONS = ('ext', 'ext2', 'last', 'case1', 'caseall', 'casemid', 'hilast', 'hifirst')
+
+def esc_byte(b): return chr(b) if (chr(b).isalnum() and b < 128) or b == ord('_') else '~%02x' % b
+
+def near_family(i):
+    """a base name and its near variants: (relation to the base, key text)"""
+    b = f'item{i:05d}'
+    return [('base', b), ('ext', b + 's'), ('ext2', b + '_x'), ('last', b[:-1] + 'x'), ('case1', 'I' + b[1:]), ('caseall', b.upper()),
+            ('casemid', b[:3] + 'M' + b[4:]), ('hilast', b[:-1] + esc_byte(ord(b[-1]) | 0x80)), ('hifirst', esc_byte(ord(b[0]) | 0x80) + b[1:])]
+
+_near_cache = {}
+def near_tables(hexe, nfam=24000):
+    """-> dict: 'fam' = list of families [(rel, text, hash)], 'by_mod' = {m: [(rel, a, b)]} near pairs (base, variant) and (variant, variant)
+    whose hashes agree modulo m, for m in 5, 11, 23, 53, 101 and 5*11*23; 'control' = pairs that agree modulo none of 5, 11, 23"""
+    if hexe is None: return None
+    if hexe in _near_cache: return _near_cache[hexe]
+    fams = [near_family(i) for i in range(nfam)]
+    names = [t for f in fams for _, t in f]
+    with tempfile.NamedTemporaryFile('w', suffix='.txt', delete=False, dir=core.CACHE) as f:
+        f.write('\n'.join(names) + '\n'); path = f.name
+    rc, out, err = core.sh([hexe, '--hashes', path], timeout=120, env=core.HENV)
+    os.unlink(path)
+    hs = out.split()
+    if rc != 0 or len(hs) != len(names):
+        _near_cache[hexe] = None; return None
+    it = iter(int(h) for h in hs)
+    fam = [[(r, t, next(it)) for r, t in f] for f in fams]
+    mods = [5, 11, 23, 53, 101, 5 * 11 * 23]
+    by_mod = {m: [] for m in mods}; control = []
+    for f in fam:
+        for x in range(len(f)):
+            for y in range(x + 1, len(f)):
+                (ra, a, ha), (rb, b, hb) = f[x], f[y]
+                rel = rb if ra == 'base' else ra + '+' + rb
+                d = ha - hb
+                for m in mods:
+                    if d % m == 0: by_mod[m].append((rel, f'{a}:{ha}', f'{b}:{hb}'))
+                if ra == 'base' and all(abs(ha % m - hb % m) not in (0, 1, m - 1) for m in (5, 11, 23)) and len(control) < 400:
+                    control.append((rel, f'{a}:{ha}', f'{b}:{hb}'))
+    _near_cache[hexe] = dict(fam=fam, by_mod=by_mod, control=control)
+    return _near_cache[hexe]
+
+def pick_pairs(rng, pairs, n, want_rel=None):
+    """n pairs over pairwise distinct keys, relations spread (direct base/variant pairs first)"""
+    by_rel = {}
+    for p in pairs: by_rel.setdefault(p[0], []).append(p)
+    rels = [r for r in NEAR_RELATIONS if r in by_rel] + sorted(r for r in by_rel if r not in NEAR_RELATIONS)
+    if want_rel: rels = [r for r in rels if r == want_rel] or rels
+    out = []; used = set(); guard = 0
+    while len(out) < n and guard < 40 * n + 40:
+        guard += 1
+        r = rels[(guard - 1) % len(rels)] if rels else None
+        if r is None: break
+        p = rng.choice(by_rel[r])
+        if p[1] in used or p[2] in used: continue
+        used.update((p[1], p[2])); out.append(p)
+    return out
+
+def pair_script(g, t, a, b):
+    """every order of binding / unbinding two near keys that a merging table gets wrong: set of one must not touch the other,
+    mem/get of the unset one must fail, rem of one must leave the other"""
+    rng = g.rng
+    if rng.random() < 0.5: a, b = b, a
+    if a in g.bound[t]: g.rem(t, a)
+    if b in g.bound[t]: g.rem(t, b)
+    g.set(t, a); g.mem(t, b); g.get(t, b); g.rem(t, b)           # b absent: false, KeyError, KeyError (and a stays)
+    g.get(t, a); g.set(t, b); g.emit(f'len {t}'); g.get(t, a); g.get(t, b)
+    if rng.random() < 0.5: g.emit(f'getk {t} {b}')
+    g.set(t, a); g.get(t, b)                                     # update of the first must not rebind the second
+    g.rem(t, a); g.mem(t, a); g.mem(t, b); g.get(t, b); g.emit(rng.choice([f'iter {t}', f'riter {t}']))
+    g.set(t, a); g.rem(t, b); g.mem(t, a); g.get(t, a)
+    if rng.random() < 0.6: g.set(t, b)
+
+def steer(g, t, fillers, lo, hi):
+    """bring nitems of table t into [lo, hi] with filler keys (so that nslots is the prime the pairs collide at)"""
+    rng = g.rng; guard = 0
+    while len(g.bound[t]) < lo and guard < 400:
+        guard += 1; g.set(t, rng.choice(fillers))
+    while len(g.bound[t]) > hi:
+        g.rem(t, g.some_present(t))
+
+def near_case(rng, nt, p):
+    """table kept at `p` slots, filled mostly with near pairs whose hashes agree modulo p"""
+    g = Gen(rng); t = rng.randrange(NT); g.new(t, 'S')
+    lo, hi = SLOT_RANGE[p]
+    pairs = pick_pairs(rng, nt['by_mod'][p], max(2, (hi + 1) // 2))
+    pool = [k for pr in pairs for k in pr[1:]]
+    fillers = [f'{x[1]}:{x[2]}' for f in rng.sample(nt['fam'], 12) for x in f[:2]]
+    fillers = [k for k in fillers if k not in pool]
+    mid = (lo + hi) // 2
+    g.churn(t, pool, (hi + 1) * 3, mid, w_iter=0.05)
+    for pr in pairs[: 6 if p <= 23 else 10]:
+        steer(g, t, fillers, max(lo, 0), max(lo, hi - 2))        # room for both keys of the pair without growing
+        if len(g.bound[t]) >= lo + 2 or lo == 0: pair_script(g, t, pr[1], pr[2])
+        if rng.random() < 0.3: g.churn(t, pool, 6, mid)
+    g.emit(f'iter {t}'); g.emit(f'len {t}')
+    g.churn(t, pool, (hi + 1) * 2, mid)
+    g.drain(t, 'random')
+    return g.lines
+
+def near_growth_case(rng, nt):
+    """pairs whose hashes agree modulo 5, 11 AND 23: bound at 5 slots, carried through 11 and 23 slots (still on one path), on to 53
+    and 101 and back down by removals; every size is passed with both keys present"""
+    g = Gen(rng); t = rng.randrange(NT); g.new(t, 'S')
+    pairs = pick_pairs(rng, nt['by_mod'][5 * 11 * 23], 4)
+    pool = [k for pr in pairs for k in pr[1:]]
+    fillers = [f'{x[1]}:{x[2]}' for f in rng.sample(nt['fam'], 40) for x in f[:2]]
+    fillers = [k for k in fillers if k not in pool]
+    first = pairs[0]
+    pair_script(g, t, first[1], first[2])
+    for p in (5, 11, 23, 53, 101):
+        lo, hi = SLOT_RANGE[p]
+        steer(g, t, fillers, lo, hi - 2)
+        for pr in pairs[: 2 if p > 23 else 4]:
+            if len(g.bound[t]) + 2 <= hi: pair_script(g, t, pr[1], pr[2])
+        for k in pool: g.mem(t, k)
+    for p in (53, 23, 11, 5):
+        lo, hi = SLOT_RANGE[p]
+        while len(g.bound[t]) > hi - 1:
+            ks = [k for k in g.bound[t] if k not in pool] or list(g.bound[t])
+            g.rem(t, rng.choice(ks))
+        for k in pool: g.get(t, k)
+        if len(g.bound[t]) + 2 <= hi: pair_script(g, t, first[1], first[2])
+    g.emit(f'iter {t}'); g.drain(t, 'random')
+    return g.lines
+
+def near_control_case(rng, nt):
+    """control group: near pairs whose home slots differ (and are not adjacent) at 5, 11 and 23 slots, in sparse tables"""
+    g = Gen(rng); t = rng.randrange(NT); g.new(t, 'S')
+    for pr in rng.sample(nt['control'], min(6, len(nt['control']))):
+        g.new(t, 'S'); pair_script(g, t, pr[1], pr[2])
+    return g.lines
+
+def near_probe_pool(rng, size):
+    """probe keys whose ids agree modulo 2^8, 2^16 or 2^32 (a comparison of a narrower id would merge them) under a hash with two values"""
+    m = modulus(101); base = rng.randrange(1, 200); out = []
+    for i in range(size):
+        step = (2**32, 256, 65536)[i % 3]
+        ident = base + (i // 3) * step * rng.choice([1, 1, -1])
+        if f'{ident}:' in ''.join(out): ident = base + (i + 1000) * step
+        out.append(f'{ident}:{(i % 2) * m + 3}')
+    return list(dict.fromkeys(out))
+
 class C02(Spec):
     id = 'C02'; engine = 'table'; harness = 'h_table'; driver = 'drv_table'
-    generators = ('Table', 'Cmp', 'Hash')      # Cmp: `eq` + Int_Cmp, Hash: hash_data — the Int / String key instances (C02_int_keys, C02_string_keys)
+    generators = ('Table', 'Cmp', 'Hash')      # Cmp: `eq` + Int_Cmp, Hash: hash_data, Table: also the text of String_Cmp — the Int / String key instances (C02_int_keys, C02_string_keys)
     harness_timeout = 600
     # Table_Get's "is the key inside my own storage" test computes `(char*)t->data + t->nslots * step` with data == NULL and
     # nslots == 0 on a cleared table: NULL + 0, flagged by UBSan's pointer-overflow check in C mode although the result is only
@@ -212,40 +353,46 @@ class C02(Spec):
                  'rehash as a fold, resize, assign/copy incl. self-assignment, constructor with pairs, assign from another kind of map, the address '
                  'test of Table_Get) refines an association list for every hash function and every history, by a local '
                  'slot-array invariant; source-derived parameters (prime table, load factor, tie rule, empty-table guard, self-assignment guard, '
-                 'probe arithmetic, eq/Int_Cmp/hash_data for the Int and String key classes) '
+                 'probe arithmetic, eq/Int_Cmp/hash_data and the text of String_Cmp for the Int and String key classes) '
                  'regenerated each run; white-box differential check of the whole slot array against the real Table after every operation')
     level_text = ('Theorem C02_refines_map: for every hash function, every key type with decidable equality and every history of '
                   'new/set/rem/get/mem/len/iterate/resize/assign/copy over several tables (assign(t, t) included; new with initial pairs and assign '
                   'from a map that is not a Table included), the model of src/Table.c never fails and its observations are those of an association-list specification, with the slot-array invariant '
                   '(stored home = hash % nslots, distinct keys, probe-distance order, an empty slot, nitems = occupied) holding after every step. '
                   'C02_int_keys / C02_string_keys instantiate it with the key test eq() over Int_Cmp resp. strcmp and the hashes Int_Hash resp. hash_data, '
-                  'as translated from the source. get with a key object that lies in the table\'s own slot array: proved right for the stored key object '
-                  '(iteration), refuted for a value object (known finding KF-C02-get-alias); the lookup theorem carries the hypothesis `outside`. '
+                  'as translated from the source; C02_string_keys first proves its explicit assumption StringCmpIsStrcmp (String_Cmp, String\'s registered Cmp instance, '
+                  'is strcmp on the two buffers) for the text that is in src/String.c now. get with ANY key object — outside the table, the stored key object of a '
+                  'record (iteration), the value object of a record, an address in an empty record — agrees with the map (C02_get_mem_agree, no `outside` '
+                  'hypothesis since fix bc940bb; the OLD address test is refuted as an explicit variant). '
                   'The parameters a source change can flip (Table_Primes, load factor, `j > p`, the nslots = 0 guard, the self-assignment guard, Table_Probe) are regenerated '
                   'from /repo on every run and the theorems are re-checked against them; the model is tied to the real Table by comparing the '
                   'complete slot array, nitems and nslots after every operation of thousands of adversarial histories (keys colliding at every '
-                  'size passed through, String keys with searched collisions, a probe element type with its own hash), and the real Table is '
+                  'size passed through, String keys with searched collisions, NEAR String keys — proper prefixes and extensions, last byte, case, bit 7 — searched so that '
+                  'the two keys of a pair share a probe path at the table sizes in use, Int keys 2^31 / 2^32 apart, probe ids equal modulo 2^8..2^32, a probe element type with its own hash), and the real Table is '
                   'checked directly against an independent map plus white-box invariants.')
     level_note = ('Trusted: Lean kernel; axioms propext/Quot.sound/Classical.choice at most; translate/g_table.py (regex extraction); the '
                   'harness/driver comparison (testing) as the link between src/Table.c and the model; memory layout of a slot, `assign`/`destruct` '
-                  'of elements and hash()/eq() of Int/String are taken as functions (C09/C10/C05 cover them). Not covered: assign(t, t) (known '
-                  'finding), Table_New with initial pairs, Table_Cmp/Hash/Show (C09/C10), allocation failure.')
+                  'of elements and hash()/eq() of Int/String are taken as functions (C09/C10/C05 cover them); strcmp itself (libc) is modelled by bytesCmp, the tie is the '
+                  'pinned text of String_Cmp plus the near-key correspondence runs. Not covered: Table_Cmp/Hash/Show (C09/C10), Float keys (eq is not an equivalence), allocation failure.')
     rule = ('op files over 8 table variables: (a) Int keys from 1-3 residue classes modulo lcm(5,11,23,53,101)[*197*389...] (in a third of the cases: keys that in addition differ by multiples of 2^32) so that every class is '
             'one collision cluster at every table size passed through, phases grow / churn (new keys, updates biased to recently inserted = '
             'non-first cluster members, removals of present and absent keys, get/mem/len/iter/riter) / drain / refill; (b) probe element type with '
             'adversarial hash functions (constant, two values, home = last slots so clusters wrap, adjacent homes, 2^64-1); (c) String keys '
-            'whose real hashes collide modulo 5*11*23 (hashes obtained from the library under test); (d) resize(0) then use, reserve then '
+            'whose real hashes collide modulo 5*11*23 (hashes obtained from the library under test); (c\') near String keys: families item<n> / +s / +_x / last byte / '
+            'case of one or all letters / bit 7 of the last or first byte (`~hh` escapes), pairs searched with the library\'s hash so that both keys have one home modulo 5, 11, 23, 53 or 101 '
+            '(the table is steered to that slot count and every order of set/mem/get/rem/update of the two keys is run) or modulo 5*11*23 (carried through growth and shrinking), '
+            'plus a control group whose homes never meet; probe ids equal modulo 2^8/2^16/2^32 under a two-valued hash; (d) resize(0) then use, reserve then '
             'fill, refused shrink, assign (one in five: assign(t, t)) and copy between tables of different kinds, new with 0-30 initial pairs (keys '
             'repeat, odd argument count), assign from a probe map type that is not a Table; in all phases 3% of the ops are gets whose key object lives '
-            'in the table (getk: stored key object; getv: value object of an absent key or of a key bound to itself); (e) larger tables (window dumps + checksums); '
+            'in the table (getk: stored key object; getv: value object of any record); (e) larger tables (window dumps + checksums); '
             '(f) Table_Ideal_Size on ranges. non-trivial observation = the dump shows an entry away from its home slot, or the op raised '
             'KeyError/FormatError, or it rehashed; distinct = distinct text of (op, observation line).')
     trusted_base = ('translate/g_table.py generator Table (regex over src/Table.c)',
                     'harness/h_table.c + lean/Driver/Table.lean (correspondence is testing)',
                     'hash(), eq(), assign(), destruct() of the element types are functions of the value (C05/C09/C10)')
     assumptions = ('one hash value per key (hash is a function of the key, eq keys hash equally: C10)',
-                   'get(t, x) with x the value object of one of t\'s own records is issued only where the map binds that value to itself or the key is '
-                   'absent (known finding KF-C02-get-alias: Table_Get answers any address inside its slot array with the value of that record)',
+                   'key equality is decided by eq() over the comparison the key type registers and IS equality of the value: proved from the translated eq/Int_Cmp for Int; '
+                   'for String it is the explicit assumption StringCmpIsStrcmp (String_Cmp = strcmp of the two buffers), checked against the source text on every run',
                    'fewer than 2^63 items; no pointer into the slot array is used after a mutation of the table',
                    'single thread; allocation does not fail')
 
@@ -280,10 +427,11 @@ class C02(Spec):
                 cs.append(Case(f'int{rep}_{target}', g.lines))
         # (b) probe element type, adversarial hash functions
         for rep in range(reps):
-            for mode in ['const', 'two', 'end', 'adjacent', 'maxu64', 'mult']:
+            for mode in ['const', 'two', 'end', 'adjacent', 'maxu64', 'mult', 'nearid']:
                 g = Gen(rng)
                 target = rng.choice([4, 9, 18, 40, 80] if quick else [4, 9, 18, 40, 80, 160, 300])
-                pool = probe_pool(rng, int(target * 1.7) + 3, mode, 101 if target < 90 else 389)
+                if mode == 'nearid': target = min(target, 80)
+                pool = near_probe_pool(rng, int(target * 1.7) + 3) if mode == 'nearid' else probe_pool(rng, int(target * 1.7) + 3, mode, 101 if target < 90 else 389)
                 t = rng.randrange(NT); g.new(t, 'P')
                 if target <= 18: g.ends(t, 'P', pool)
                 g.churn(t, pool, target * 4 + 20, target)
@@ -302,6 +450,14 @@ class C02(Spec):
             g.churn(t, pool, target * 5, target)
             g.drain(t, 'random'); g.churn(t, pool, target * 2, target // 2)
             cs.append(Case(f'string{rep}', g.lines))
+        # (c') near String keys on one probe path: prefixes / extensions, last byte, case, bit 7 (pairs searched with the library's hash)
+        nt = near_tables(hexe)
+        if nt:
+            for rep in range(reps):
+                for p in ((5, 11, 23, 53) if quick else (5, 11, 23, 53, 101)):
+                    if len(nt['by_mod'][p]) >= 4: cs.append(Case(f'near{rep}_{p}', near_case(rng, nt, p)))
+                if len(nt['by_mod'][5 * 11 * 23]) >= 4: cs.append(Case(f'neargrow{rep}', near_growth_case(rng, nt)))
+            if nt['control']: cs.append(Case('nearcontrol', near_control_case(rng, nt)))
         # (d) resize / assign / copy across tables
         for rep in range(reps * 2):
             g = Gen(rng)
@@ -393,6 +549,10 @@ class C02(Spec):
         return items
 
     def stats(self, case, c_out, m_out, acc):
+        if case.name.startswith('near') or case.name == 'corpus_table_near_keys':
+            # near-key cases: how often a lookup of the unset member of a pair ran into its partner's cluster and was (rightly) refused
+            acc['near_cases'] = acc.get('near_cases', 0) + 1
+            acc['near_refusals'] = acc.get('near_refusals', 0) + sum(1 for l in core.lines_with('O ', c_out) if l.startswith(('O mem 0', 'O get KeyError', 'O rem KeyError')))
         for l in core.lines_with('O ', c_out):
             w = l.split()
             if len(w) > 1: acc['op_' + w[1]] = acc.get('op_' + w[1], 0) + 1
